@@ -8,6 +8,9 @@ package main
 import (
 	"go/types"
 	"net"
+	"net/url"
+	"strconv"
+	"strings"
 )
 
 func isProtoInternalField(name string) bool {
@@ -331,8 +334,42 @@ func (e *Engine) registerProto() {
 		t := c.e.namedType("github.com/redis/go-redis/v9", "StatusCmd")
 		return c.ret(c.e.newStruct(c.st, t, nil))
 	})
+	r("(*github.com/redis/go-redis/v9.Client).Options", func(c *CallCtx) []Outcome {
+		p := c.args[0].(Ptr)
+		if op, ok := c.st.heap.objs[p.obj].(OpaqueV); ok && op.kind == "redisclient" {
+			return c.ret(op.data.(Value))
+		}
+		unm("Client.Options on a real client")
+		return nil
+	})
 	r("github.com/redis/go-redis/v9.ParseURL", func(c *CallCtx) []Outcome {
 		s := c.args[0].(*Str)
+		if cs, isC := s.Const(); isC {
+			// exact for constants: redis[s]://[user[:password]@]host[:port][/db]
+			u, err := url.Parse(cs)
+			if err != nil || (u.Scheme != "redis" && u.Scheme != "rediss") {
+				return c.ret(TupleV{Ptr{}, c.e.newError(c.st, "redis url")})
+			}
+			host, port := u.Hostname(), u.Port()
+			if host == "" {
+				host = "localhost"
+			}
+			if port == "" {
+				port = "6379"
+			}
+			db := int64(0)
+			if p := strings.Trim(u.Path, "/"); p != "" {
+				n, perr := strconv.Atoi(p)
+				if perr != nil {
+					return c.ret(TupleV{Ptr{}, c.e.newError(c.st, "redis url db")})
+				}
+				db = int64(n)
+			}
+			pw, _ := u.User.Password()
+			ot := c.e.namedType("github.com/redis/go-redis/v9", "Options")
+			opts := c.e.newStruct(c.st, ot, map[string]Value{"Addr": constStr(host + ":" + port), "DB": I(db), "Username": constStr(u.User.Username()), "Password": constStr(pw), "Network": constStr("tcp")})
+			return c.ret(TupleV{opts, IfaceV{}})
+		}
 		_, bad := c.st.ufStrings("redisURL", s, emptyStr)
 		// known-good shapes parse (keeps the uninterpreted predicate in line with go-redis on the
 		// values the harnesses use)
